@@ -214,6 +214,40 @@ def fourier_resample(f, zoom):
     return fprime
 
 
+def fourier_resample_backprop(fbar, zoom, shape):
+    """Gradient backpropagation through fourier_resample.
+
+    Parameters
+    ----------
+    fbar : ndarray
+        gradient with respect to the output of fourier_resample
+    zoom : float
+        zoom factor that was applied in the forward pass
+    shape : tuple of int
+        shape of the array that was resampled in the forward pass
+
+    Returns
+    -------
+    ndarray
+        gradient with respect to the input of fourier_resample
+
+    """
+    if zoom == 1:
+        return fbar
+
+    if isinstance(zoom, (float, int)):
+        zoom = (zoom, zoom)
+    elif not isinstance(zoom, tuple):
+        zoom = tuple(float(zoom) for zoom in zoom)
+
+    m, n = shape
+    Fbar = mdft.idft2_backprop(fbar, zoom, (m, n))
+    Fbar *= (zoom[0]*zoom[1])/(np.sqrt(m*n))
+    # the adjoint of the unnormalized forward FFT is (m*n) times the inverse FFT
+    out = fft.fftshift(fft.ifft2(fft.ifftshift(Fbar))) * (m*n)
+    return out.real
+
+
 class MatrixDFTExecutor:
     """MatrixDFTExecutor is an engine for performing matrix triple product DFTs as fast as possible."""
 
